@@ -9,13 +9,16 @@ from ..frontend import AnalysisError, FunctionInfo, ancestors, dotted, enclosing
 from ..report import Ctx
 
 LEVEL_TEXT = (
-    "Static rules over the recorder/tracker sources: (R1) every closure created in a loop or comprehension that is "
-    "stored binds the iteration variable it reads; (R2) every writerow on the recorder's csv writer is followed on "
-    "every path by a flush of the wrapped file; (R3) header and rows are comprehensions over the same field mapping, "
-    "not modified after the header; (R4) the row gate is exactly (not only_best or is_best); (R5) nothing else "
-    "writes the file; (R6) column name and component index come from the same bound variable and extractors read the "
-    "registered individual; (R7) trackers register every evaluated individual with every recorder. Decides these "
-    "necessary conditions for all histories and configurations; does not decide OS-level atomicity of one write."
+    "(R1) every closure created in a loop / comprehension in recorder construction code binds the iteration variables it "
+    "reads; (R2, R3, R4, R6) finite-model interpretation of the CSV recorder (__init__ then register; the file and the csv "
+    "writer are symbolic objects whose writerow / flush calls are recorded; closures with Python's default-argument and "
+    "late-binding semantics) for default and extra fields and the four (only_record_best, is_best) combinations: the header "
+    "is the list of columns of the field mapping and is written once, every row has one cell per column, a row is written "
+    "iff (not only_best) or is_best, column FitnessK holds component K of the registered individual (three objectives), "
+    "extractors are applied to the registered individual, and every row written is followed by a flush of the log file; "
+    "(R5) only the recorder touches the file / writer handles; (R7) evaluate() of every tracker is interpreted with two "
+    "recorders: whatever the comparison outcomes, every individual handed back by the evaluator is registered with every "
+    "recorder exactly once. Atomicity of one flushed write under a kill inside write(2) is not decided."
 )
 
 SEARCH_RECORDER = "geneticengine.evaluation.recorder.SearchRecorder"
